@@ -879,7 +879,7 @@ func evalActionDelete(node *ActionExpression, env *Environment) Object {
 		}
 
 		if obj == UNDEFINED {
-			env.Set(id.Value, val)
+			// deleting elements from a set that does not exist does nothing
 			return obj
 		}
 
